@@ -41,10 +41,57 @@ def repo_root():
     return os.environ.get('VERIF_REPO', '/repo')
 
 
+_TREE_HASH = [None]
+
+
+def tree_hash():
+    """content hash of everything a verification result depends on: the repository's Python
+    sources, the engine and the contracts"""
+    if _TREE_HASH[0] is None:
+        import hashlib
+        h = hashlib.sha256()
+        roots = [os.path.join(repo_root(), 'py_stringsimjoin'), os.path.join(HERE, 'pyvc'),
+                 os.path.join(HERE, 'contracts')]
+        for root in roots:
+            for d, dirs, files in sorted(os.walk(root)):
+                dirs.sort()
+                if '__pycache__' in d or os.sep + 'tests' in d:
+                    continue
+                for f in sorted(files):
+                    if f.endswith('.py'):
+                        pth = os.path.join(d, f)
+                        h.update(pth.encode())
+                        h.update(open(pth, 'rb').read())
+        _TREE_HASH[0] = h.hexdigest()
+    return _TREE_HASH[0]
+
+
 def _task(args):
     qual, idx, tmo = args
+    cache_dir = os.path.join(HERE, '.cache')
+    key = None
+    if not os.environ.get('PYVC_NOCACHE'):
+        import hashlib
+        key = hashlib.sha256(('%s|%s|%d|%d' % (tree_hash(), qual, idx, tmo)).encode()).hexdigest()[:40]
+        pth = os.path.join(cache_dir, key + '.json')
+        if os.path.exists(pth):
+            try:
+                out = json.load(open(pth))
+                out['cached'] = True
+                return out
+            except Exception:
+                pass
     try:
-        return RUN.verify_case(repo_root(), qual, idx, timeout_ms=tmo)
+        out = RUN.verify_case(repo_root(), qual, idx, timeout_ms=tmo)
+        if key and out.get('status') == 'ok' and all(r['status'] == 'unsat' for r in out['results']):
+            # only fully discharged results are reused (same sources, engine and contracts: the
+            # result is a function of their content); anything else is recomputed
+            try:
+                os.makedirs(cache_dir, exist_ok=True)
+                json.dump(out, open(os.path.join(cache_dir, key + '.json'), 'w'))
+            except Exception:
+                pass
+        return out
     except Exception:
         return dict(fn=qual, case=str(idx), status='error', results=[], notes=[traceback.format_exc()],
                     assumed=[], stats={}, secs=0)
@@ -101,6 +148,22 @@ def run_replay_search(pid, failing, tier, seed):
         return dict(found=False, error='replay harness failed: ' + (p.stdout + p.stderr)[-800:])
 
 
+def run_bounded(targets, tier, seed):
+    """bounded stand-ins for the contracts with status `bounded` used by this property"""
+    if not targets:
+        return []
+    env = dict(os.environ)
+    env['PYTHONPATH'] = repo_root() + os.pathsep + HERE
+    req = dict(targets=targets, tier=tier, seed=seed)
+    try:
+        p = subprocess.run(['/venv/bin/python', '-W', 'ignore', os.path.join(HERE, 'replay', 'harness.py'),
+                            '--bounded'], input=json.dumps(req), capture_output=True, text=True,
+                           env=env, timeout=3600, cwd=HERE)
+        return json.loads(p.stdout.strip().splitlines()[-1])
+    except Exception as e:
+        return [dict(fn='*', case=None, cases_run=0, failures=[], error='bounded harness failed: %s' % e)]
+
+
 def check_property(pid, tier='quick', seed=0):
     from props import PROPS
     t0 = time.time()
@@ -121,6 +184,7 @@ def check_property(pid, tier='quick', seed=0):
     all_results = []
     fn_status = {}
     notes = []
+    cache_hits = sum(1 for o in outs if o.get('cached'))
     assumed = set()
     machinery_error = None
     undecided = []
@@ -140,6 +204,14 @@ def check_property(pid, tier='quick', seed=0):
         notes += ['%s: %s' % (key, n) for n in o['notes']]
         assumed.update(o.get('assumed', []))
     all_results += lemma_results + extra_results
+    # bounded stand-ins -------------------------------------------------------------------
+    import re as _re
+    btargets = []
+    for a in sorted(assumed):
+        m_ = _re.match(r'(\S+) \{(.*)\} \[bounded\]', a)
+        if m_:
+            btargets.append(dict(fn=m_.group(1), case=m_.group(2)))
+    bounded_results = run_bounded(btargets, tier, seed)
     failing = [r for r in all_results if r['status'] != 'unsat'] + undecided
     n_obl = len(all_results) + len(undecided)
     n_ok = sum(1 for r in all_results if r['status'] == 'unsat')
@@ -179,6 +251,27 @@ def check_property(pid, tier='quick', seed=0):
             print('UNDECIDED property=%s obligation=%s (%s) details=%s' % (pid, r['name'], r.get('detail', '')[:200], rpath))
             if exit_code == 0:
                 exit_code = 2
+    for b in bounded_results:
+        if b.get('error'):
+            print('pyvc: bounded stand-in for %s could not run: %s' % (b['fn'], b['error']))
+            exit_code = 3
+        for fl in b.get('failures', []):
+            rpath = os.path.join('replays', '%s-bounded-%s.json' % (pid, ''.join(ch if ch.isalnum() else '_' for ch in b['fn'])[-80:]))
+            doc = dict(property=pid, obligation='bounded/%s/%s' % (b['fn'], b['case']), function=b['fn'],
+                       case=b['case'], solver_status='bounded-standin-failed',
+                       replay=dict(found=True, fn=b['fn'], case=b['case'], args=fl['args'], failure=fl['failure']),
+                       repo=repo_root(), how_to_replay='./check --replay ' + rpath)
+            json.dump(doc, open(os.path.join(HERE, rpath), 'w'), indent=1, default=str)
+            k = match_known(known, pid, doc['obligation'])
+            if k is not None:
+                print('KNOWN-FINDING: property=%s %s: %s' % (pid, k['id'], k['what']))
+                known_hit.append(dict(finding=k['id'], obligation=doc['obligation']))
+            else:
+                violations.append(rpath)
+                print('VIOLATION property=%s replay=%s' % (pid, rpath))
+                if exit_code != 3:
+                    exit_code = 1
+            break
     if machinery_error:
         print('pyvc: machinery error:\n' + machinery_error)
         exit_code = 3
@@ -208,8 +301,16 @@ def check_property(pid, tier='quick', seed=0):
                             lemmas=[dict(name=r['name'], status=r['status'], secs=r['secs']) for r in lemma_results],
                             undischarged=[dict(name=r['name'], status=r['status']) for r in failing],
                             known_findings_hit=known_hit,
-                            bounded_standins=spec.get('bounded_note', []),
+                            bounded_standins=[dict(contract=b['fn'], case=b['case'], cases_run=b.get('cases_run', 0),
+                                                   failures=len(b.get('failures', [])), secs=b.get('secs'),
+                                                   scope_exhausted=b.get('generator_exhausted'))
+                                              for b in bounded_results],
+                            assumed_contracts=sorted(a for a in assumed if '[assumed' in a or '[bounded]' in a),
                             samples=samples, notes=notes[:40],
+                            reused_results=dict(function_cases=cache_hits, of=len(outs),
+                                                rule='results of fully discharged (function, case) pairs are reused when '
+                                                     'the content hash of /repo sources, pyvc and contracts is unchanged '
+                                                     '(PYVC_NOCACHE=1 disables)'),
                             repo=repo_root()),
               assumptions=ASSUMPTIONS + spec.get('assumptions', []),
               wall_s=round(wall, 2), violations=len(violations))
